@@ -297,7 +297,11 @@ impl Choices {
         let mut max_tombs_c: Vec<COp> = (0..fill).map(COp::Insert).collect();
         max_tombs_c.extend((fill - tomb..fill).map(COp::Remove));
         full.truncate(fill as usize);
+        // one home per key, every element removed one by one: no element left, the free-slot budget spent on tombstones
+        let mut emptied: Vec<COp> = (0..fill).map(COp::Insert).collect();
+        emptied.extend((0..fill).map(COp::Remove));
         vec![
+            SeedDef { name: "emptied-by-removals", plan: Plan::Seq, seed: emptied, ids: vec![fill + 1, 0], len: 2, dev: 2 },
             SeedDef { name: "empty", plan: Plan::Zero, seed: vec![], ids: vec![0, 1], len: if q { 3 } else { 4 }, dev: 3 },
             SeedDef { name: "three-keys", plan: Plan::Cluster(2), seed: three, ids: vec![1, 5], len: 3, dev: 3 },
             SeedDef { name: "tombstone-saturated", plan: Plan::Zero, seed: tombs, ids: vec![tomb + 1, 100], len: if q { 2 } else { 3 }, dev: 3 },
